@@ -76,6 +76,7 @@ def tree_family(lv: Leaves, deep: bool = False) -> list:
     add("Derivative(f(t), t)", Node("Derivative", [f, [t, 1]]))
     add("Derivative(f(t), (t, 2))", Node("Derivative", [f, [t, 2]]))
     add("Derivative(f(t), t, a)", Node("Derivative", [f, [t, 1], [a, 1]]))
+    add("Derivative(f(t), (t, c))", Node("Derivative", [f, [t, c]]))  # a derivative of symbolic order: no sum, no exponent - nothing to refuse
     # the variable of differentiation need not be a plain symbol (Lagrangian forms dL/dx(t), dL/d(dx/dt)): its dimension is inferred like any other operand's
     g = lv.applied("g(t)", L, [t])
     dg = Node("Derivative", [g, [t, 1]])
